@@ -194,8 +194,8 @@ NoOverflow == /\ Used(IbP(place, ib)) <= IbodySpace
               /\ (ISZ <= 128 => ib = 0)
 SortedBlock == \A i, j \in (ib + 1)..Len(place) : i < j => KeyLess(place[i].n, place[j].n)
 DataInIbody == LET i == IndexOf(place, DATA) IN i # 0 => i <= ib
-\* storage: the block exists exactly while it has entries; (leak of an empty block = DevKeepEmptyBlock)
-BlockIffEntries == (BlP(place, ib) # <<>> => hasblk) /\ (~DevKeepEmptyBlock => (hasblk => BlP(place, ib) # <<>>))
+\* storage: the block exists exactly while it has entries (an empty block kept allocated is a leak: DevKeepEmptyBlock breaks this)
+BlockIffEntries == hasblk <=> (BlP(place, ib) # <<>>)
 Shared == pstate = "shared" => hasblk
 \* value inodes: reference count = number of referrers (a shared block counts once); sizes agree; none dangling
 Refs(s, k) == Cardinality({i \in 1..Len(s) : s[i].ea = k})
@@ -207,7 +207,7 @@ PeerIntact == pstate = "own" => \A i \in 1..Len(pblk) : pblk[i].ea # 0 => eai[pb
 EaOnlyWithFeature == (~EAINODE) => \A i \in 1..Len(place) : place[i].ea = 0
 \* the owner's i_blocks: one block for the xattr block plus the clusters of every value inode it references
 EaCharge(s) == LET F[i \in 0..Len(s)] == IF i = 0 THEN 0 ELSE F[i - 1] + (IF s[i].ea # 0 THEN DB(s[i].vlen) ELSE 0) IN F[Len(s)]
-Charge == (~DevNoEaCharge) => chg = (IF hasblk THEN 1 ELSE 0) + EaCharge(place)
+Charge == chg = (IF hasblk THEN 1 ELSE 0) + EaCharge(place)
 \* allocation totals implied by the state (compared with the real free counts by the trace spec)
 BlkAlloc == (IF hasblk THEN 1 ELSE 0) + (IF pstate = "own" THEN 1 ELSE 0)
 InoAlloc == Cardinality({k \in 1..MaxEa : eai[k].ref > 0})
